@@ -644,6 +644,7 @@ def handle (cfg : Cfg) (s : State) (w : Who) (now : Int) : Op → State × Resp
     (s, okR [("uploads", ",".intercalate (bk.uploads.map fun u => hx u.key ++ ":" ++ hx u.id))])
   | .completeUpload b k id parts mpEtag newVid => withBucket s b fun bk =>
     guarded (verifyAccess cfg bk w .write actPutObject k) s fun _ =>
+    guarded (lockCheck bk w now true k []) s fun _ =>
     match bk.uploads.find? (fun u => u.key == k && u.id == id) with
     | none => (s, errR "NoSuchUpload")
     | some up =>
